@@ -37,8 +37,25 @@ class SubSub(SubCaseless):
 KINDS = {"SubEvent": SubEvent, "SubCaseless": SubCaseless, "SubSub": SubSub, "Dynamic": None, "CaselessDict": CaselessDict, "Parameters": Parameters, "Component": Component, "Event": Event,
          "Todo": Todo, "Calendar": Calendar, "Timezone": Timezone}
 POOL = ["a", "A", "b", "B", "summary", "Summary", "SUMMARY", "x-a", "X-A", "x-A", "dtstart", "DTSTART", "uid", "Version",
-        "prodid", "tzid", "x-größe", "X-GRÖSSE", "ünï", "ÜNÏ"]
+        "prodid", "tzid",
+        # names whose order depends on how they are compared: characters between 'Z' and 'a' in code point order ([ \\ ] ^ _ `)
+        "x_b", "X_B", "xa", "XA", "X-MS_OLK", "x-msa", "x^y", "X`Z", "x[1]", "XY",
+        "x-größe", "X-GRÖSSE", "ünï", "ÜNÏ"]
 KWPOOL = ["a", "A", "b", "summary", "Summary", "SUMMARY", "uid", "Version", "prodid", "tzid", "dtstart"]
+
+
+class _Duck:
+    def __init__(self, d):
+        self._d = d
+
+    def keys(self):
+        return list(self._d.keys())
+
+    def items(self):
+        return list(self._d.items())
+
+    def __getitem__(self, k):
+        return self._d[k]
 
 
 def dk(k):
@@ -179,6 +196,12 @@ def _run(case):
         elif name == "update_map":
             (data,) = args
             real.update({dk(k): v for k, v in data})
+            for k, v in data:
+                model[up(k)] = v
+        elif name == "update_duck":
+            # a mapping by protocol only (keys/items/__getitem__, as email.message.Message or a record class): dict.update takes it
+            (data,) = args
+            real.update(_Duck({dk(k): v for k, v in data}))
             for k, v in data:
                 model[up(k)] = v
         elif name == "update_pairs":
@@ -388,7 +411,7 @@ op = st.one_of(
     st.tuples(st.just("getd"), key, st.one_of(st.none(), val)), st.tuples(st.just("pop"), key, st.one_of(st.none(), val)),
     st.tuples(st.just("setdefault"), key, st.one_of(st.none(), val)),
     st.tuples(st.just("update_map"), upairs), st.tuples(st.just("update_pairs"), pairs), st.tuples(st.just("update_kw"), kwpairs),
-    st.tuples(st.just("update_map_kw"), upairs, kwpairs),
+    st.tuples(st.just("update_map_kw"), upairs, kwpairs), st.tuples(st.just("update_duck"), upairs),
     st.tuples(st.just("copy")), st.tuples(st.just("or"), upairs), st.tuples(st.just("or"), st.just([])), st.tuples(st.just("ior"), upairs), st.tuples(st.just("ror"), upairs), st.tuples(st.just("ror"), st.just([])),
     st.tuples(st.just("set_canonical_order"), st.lists(st.sampled_from(["A", "B", "SUMMARY", "UID", "X-A"]), max_size=3, unique=True)),
     st.tuples(st.just("sorted_keys")),
